@@ -118,6 +118,8 @@ func buildModel(s *ast.Schema, computed bool) (*schemaModel, error) {
 			if a == nil {
 				return nil, fmt.Errorf("%s: @key without fields", name)
 			}
+			// (gqlgen generates a resolver for every @key, also one marked resolvable: false; the
+			// argument only matters for entities that consist of nothing but their first key)
 			paths, err := parseFieldSet(a.Value.Raw)
 			if err != nil {
 				return nil, err
